@@ -584,16 +584,28 @@ class Owner(callbacks.Plugin):
         if given, only enables the <command> from <plugin>.  This command is
         the inverse of disable.
         """
+        if plugin:
+            name = '%s.%s' % (plugin.name(), command)
+        else:
+            name = command
+        try:
+            # The registry value is the record of what was disabled: look the
+            # name up there first, so that nothing changes at all when the
+            # command wasn't disabled under that name.
+            conf.supybot.commands.disabled().remove(name)
+        except KeyError:
+            irc.error('That command wasn\'t disabled.')
+            return
         try:
             if plugin:
                 plugin._disabled.remove(command, plugin.name())
-                command = '%s.%s' % (plugin.name(), command)
             else:
                 self._disabled.remove(command)
-            conf.supybot.commands.disabled().remove(command)
-            irc.replySuccess()
         except KeyError:
-            irc.error('That command wasn\'t disabled.')
+            # Already gone from the live store (the same command was disabled
+            # and enabled globally in between).
+            pass
+        irc.replySuccess()
     enable = wrap(enable, [optional('plugin'), 'commandName'])
 
     def rename(self, irc, msg, args, command_plugin, command, newName):
